@@ -214,7 +214,7 @@ class Body:
                     return ("env",)
                 return ("arg", name or ("_%d" % l))
         ds = self.defs.get(l, [])
-        if len(ds) > 1 and self.rec.get("inlined"):
+        if len(ds) > 1 and self.rec.get("transformed"):
             ds = self._dedupe_defs(l, ds)
         whole = [d for d in ds if d[2]]
         if self.locals[l].get("alias") and len(ds) == 1 and len(whole) == 1:
@@ -263,6 +263,53 @@ class Body:
         st = self.blocks[bi]["stmts"][si]
         return self.origin_rvalue(st["rv"], depth + 1)
 
+    def _ok_view(self, o, depth=0):
+        """For the operand of `?`: when it is a local assigned on several paths — once `Ok(x)` (or
+        the success value of another `?`), otherwise only errors (`Err(..)`, a re-wrapped residual)
+        — the success payload can only come from that one definition: return it. This is what a
+        helper with `?`s inside looks like after it was inlined."""
+        if depth > 6 or not self.rec.get("transformed"):
+            return o
+        v = o
+        while v[0] == "var" and v[3] is not None:
+            v = v[3]
+        if v[0] != "var":
+            return o
+        ds = self._dedupe_defs(v[1], self.defs.get(v[1], []))
+        oks, unknown = [], 0
+        for bi, si, whole in ds:
+            if not whole:
+                unknown += 1
+                continue
+            if si == "T":
+                t = self.blocks[bi]["term"]
+                if t["k"] == "call" and (t.get("callee") or "").endswith("FromResidual::from_residual"):
+                    continue
+                if t["k"] == "call":
+                    # a Result computed by a call (`x.ok_or(..)` as the tail expression): the only
+                    # definition that can carry a success value
+                    oks.append(self.origin_call(bi, depth + 1))
+                    continue
+                unknown += 1
+                continue
+            rv = self.blocks[bi]["stmts"][si]["rv"]
+            if rv["k"] == "agg" and rv.get("ak") == "adt" and rv.get("adt", "").split("<")[0] in ("std::result::Result", "core::result::Result", "std::option::Option", "core::option::Option"):
+                if rv["variant"] in ("Ok", "Some"):
+                    oks.append(self.origin_rvalue(rv, depth + 1))
+                continue
+            if rv["k"] == "use" and rv["op"].get("k") in ("move", "copy") and not rv["op"]["pl"]["p"]:
+                inner = self._ok_view(self.origin_local(rv["op"]["pl"]["l"], depth + 1), depth + 1)
+                iv = inner
+                while iv[0] == "var" and iv[3] is not None:
+                    iv = iv[3]
+                if iv[0] == "agg" and iv[3] in ("Ok", "Some"):
+                    oks.append(inner)
+                    continue
+            unknown += 1
+        if len(oks) == 1 and unknown == 0:
+            return oks[0]
+        return o
+
     def origin_call(self, bi, depth=0):
         t = self.blocks[bi]["term"]
         cn = strip_generics(t.get("callee"))
@@ -272,7 +319,10 @@ class Body:
         if cn == "std::clone::Clone::clone" and args:
             return ("clone", self.origin_operand(args[0], depth + 1))
         if cn == "std::ops::Try::branch" and args:
-            return ("try", self.origin_operand(args[0], depth + 1))
+            raw = self.origin_operand(args[0], depth + 1)
+            okv = self._ok_view(raw)
+            # o[1]: what a success payload comes from; o[2] (only when different): the operand itself
+            return ("try", okv) if okv is raw else ("try", okv, raw)
         ao = [self.origin_operand(a, depth + 1) for a in args]
         return ("call", cn or "<indirect>", ao, (self.path, bi))
 
@@ -349,6 +399,14 @@ class Body:
                     if inner[0] == "agg" and inner[3] == base[2] and name in inner[4]:
                         base = inner[4][name]
                         continue
+                    # `Ok(x)?` → x (the Continue payload of the `?` of a literal Ok / Some)
+                    if base[2] == "Continue" and inner[0] == "try":
+                        i2 = inner[1]
+                        while i2[0] == "var" and i2[3] is not None:
+                            i2 = i2[3]
+                        if i2[0] == "agg" and i2[3] in ("Ok", "Some") and name in i2[4]:
+                            base = i2[4][name]
+                            continue
                 base = ("field", base, name)
             elif kind == "dc":
                 base = ("variant", base, el[1])
@@ -365,6 +423,14 @@ class Body:
     def _moves_in_operand(self, op, acc):
         if op and op.get("k") == "move" and not op["pl"]["p"]:
             acc.add(op["pl"]["l"])
+        elif op and op.get("k") == "move":
+            # `Some(x) => … x …`: the only payload of the variant the value is known to be is
+            # moved out; nothing of an Option / Result is left to drop on this path
+            pr = op["pl"]["p"]
+            if len(pr) == 2 and pr[0][0] == "dc" and pr[1][0] == "f" and pr[1][1] == 0:
+                ty = self.locals[op["pl"]["l"]]["ty"]
+                if (ty.startswith(("std::option::Option<", "core::option::Option<")) and pr[0][1] == "Some") or (ty.startswith(("std::result::Result<", "core::result::Result<")) and pr[0][1] in ("Ok", "Err")):
+                    acc.add(op["pl"]["l"])
 
     def _rv_operands(self, rv):
         k = rv["k"]
@@ -734,7 +800,8 @@ class Program:
         roots = [r for r in self.families if strip_generics(r) == root_suffix or strip_generics(r).endswith("::" + root_suffix)]
         if len(roots) != 1:
             raise AnchorError("family anchor %r matches %d roots" % (root_suffix, len(roots)))
-        return sorted(self.families[roots[0]], key=lambda b: b.path)
+        # closures that rules/inline.py wrote out in place are part of their host now
+        return sorted([b for b in self.families[roots[0]] if not getattr(b, "spliced", False)], key=lambda b: b.path)
 
     def callee_body(self, t):
         """crate-local body a call terminator resolves to (or None)"""
@@ -752,7 +819,10 @@ class Program:
         if self._cg is not None:
             return self._cg
         cg = defaultdict(set)
+        spliced = getattr(self, "spliced", set())
         for b in self.bodies.values():
+            if b.path in spliced:
+                continue  # written out in place by rules/inline.py: its calls are its host's calls
             for bi, t in b.calls():
                 cb = self.callee_body(t)
                 if cb is not None:
@@ -761,7 +831,7 @@ class Program:
                 for st in blk["stmts"]:
                     if st["k"] == "assign" and st["rv"]["k"] == "agg" and st["rv"]["ak"] in ("closure", "coroutine", "coroutine_closure"):
                         d = st["rv"]["def"]
-                        if d in self.bodies:
+                        if d in self.bodies and d not in spliced:
                             cg[b.path].add(d)
         self._cg = cg
         return cg
